@@ -3,7 +3,8 @@
    Model: Model/S3Retry.v (request loop of S3ChunkStore.request over the urllib3 Retry counters, _request conversions,
    error_map, _raise_for_status, _DetectTruncation, get_chunk + bucket check, RDB fetch), Model/Jwt.v. *)
 From Coq Require Import ZArith List Bool String.
-From KV Require Import Base.Sx Base.Str Gen.Generated Model.S3Retry Model.Jwt Proofs.S3RetryP Proofs.JwtP.
+From KV Require Import Base.Sx Base.Str Gen.Generated Model.S3Retry Model.S3Session Model.Jwt Proofs.S3RetryP
+  Proofs.S3SessionP Proofs.JwtP.
 Import ListNotations.
 Open Scope Z_scope.
 
@@ -190,3 +191,84 @@ Example C09_listing_budget_not_carried :
   spec_request cfg 100 [HFault HReset; Trunc 5] = (Err Glitch, 2%nat).
 Proof. vm_compute. split; reflexivity. Qed.
 Print Assumptions C09_listing_budget_not_carried.
+
+(* =====================================================================================
+   ONE STORE OBJECT, ANY HISTORY OF CALLS (Model/S3Session.v).  The store carries the verified-bucket cache, the Retry
+   template and the session pool from one get_chunk call to the next; _verify_bucket is modelled by interpreting its
+   statements in source order (Generated.s3_verify_steps), so WHEN the bucket enters the cache is part of the model.
+   ===================================================================================== *)
+
+(* ---- MAIN (histories): for every configuration and EVERY sequence of get_chunk calls on a fresh store object - any
+   buckets, any bucket states (which may change between calls), any chunk geometries, any fault sequences on the object
+   and listing requests - every call returns what the single-call spec says with the FULL retry budget of the
+   configuration (nothing of the Retry state survives a call), where a 404 is passed on as a missing chunk only on the
+   evidence `shown` of the history: an earlier (or this) 404 in the same bucket whose listing came back and showed a
+   key; and every call sends exactly the object requests of the counting spec ---- *)
+Theorem C09_session : forall cfg ops,
+  wf_retry (c_retry cfg) = true -> Forall wf_op ops ->
+  map g_result (fst (session cfg [] ops)) = spec_session cfg [] ops /\
+  map g_obj_requests (fst (session cfg [] ops)) =
+    map (fun o => spec_requests (c_forcelist cfg) (o_len o) (c_retry cfg) (o_fs o)) ops.
+Proof. exact session_fresh_is_spec. Qed.
+Print Assumptions C09_session.
+
+(* the k-th call of any history, spelled out *)
+Theorem C09_session_call : forall cfg pre o post,
+  wf_retry (c_retry cfg) = true -> Forall wf_op (pre ++ o :: post) ->
+  nth (List.length pre) (map g_result (fst (session cfg [] (pre ++ o :: post)))) (Err Raw) =
+  spec_get_chunk cfg (o_len o) (o_blen o) (shown cfg pre (o_id o)) (o_state o) (o_fs o) (o_fsb o).
+Proof. exact nth_call. Qed.
+Print Assumptions C09_session_call.
+
+(* ---- INVARIANT of the cache, for all request/fault histories: after any history the verified set is exactly the
+   evidence; in particular a bucket is in it ONLY IF some call of the history got a 404 for a chunk in that bucket,
+   the bucket existed and held a key at that moment and the listing request came back complete ---- *)
+Theorem C09_cache_is_evidence : forall cfg ops id,
+  wf_retry (c_retry cfg) = true -> Forall wf_op ops ->
+  memN id (snd (session cfg [] ops)) = shown cfg ops id.
+Proof. exact cache_is_evidence. Qed.
+Print Assumptions C09_cache_is_evidence.
+
+Theorem C09_verified_only_if_listed : forall cfg ops id,
+  wf_retry (c_retry cfg) = true -> Forall wf_op ops ->
+  memN id (snd (session cfg [] ops)) = true ->
+  exists o, In o ops /\ o_id o = id /\ o_state o = BFull /\ obj404 cfg o = true /\
+            exists d, fst (request cfg PListing (o_blen o) [] (o_fsb o)) = Ok d.
+Proof. exact verified_only_if_listed. Qed.
+Print Assumptions C09_verified_only_if_listed.
+
+(* ---- the 404 rule over histories in the words of the property: without evidence a 404 is never reported as a
+   missing chunk - however many 404s the same store has already seen in that bucket; with evidence it is; and a call
+   that is not answered 404 is judged by the counting spec alone ---- *)
+Theorem C09_404_needs_evidence : forall cfg hist o,
+  obj404 cfg o = true -> shown cfg (hist ++ [o]) (o_id o) = false -> spec_op cfg hist o <> Err NotFound.
+Proof. exact spec_404_needs_evidence. Qed.
+Print Assumptions C09_404_needs_evidence.
+
+Theorem C09_404_with_evidence : forall cfg hist o,
+  obj404 cfg o = true -> shown cfg hist (o_id o) = true -> spec_op cfg hist o = Err NotFound.
+Proof. exact spec_404_with_evidence. Qed.
+Print Assumptions C09_404_with_evidence.
+
+Theorem C09_budget_not_carried_between_calls : forall cfg hist o,
+  obj404 cfg o = false -> spec_op cfg hist o = spec_result (c_forcelist cfg) (o_len o) (c_retry cfg) (o_fs o).
+Proof. exact spec_op_no_404. Qed.
+Print Assumptions C09_budget_not_carried_between_calls.
+
+(* satisfiable, and the histories that matter: an empty / missing bucket stays unavailable however often it is asked
+   (also after a listing that failed with a server glitch); a healthy bucket does not vouch for another one; the
+   cache is trusted once filled; the read budget is whole again at every call *)
+Example C09_session_examples :
+  let cfg := mkConfig (mkRetry (Some 10) (Some 1) (Some 1) (Some 1)) [500; 502; 503; 504] in
+  let segs := [8; 2; 118; 96]%nat in
+  let nf b st := mkOp b st segs 100 [Status 404] [] in
+  map g_result (fst (session cfg [] [nf 0 BEmpty; nf 0 BEmpty; nf 0 BEmpty]))%nat = [Err Unavail; Err Unavail; Err Unavail] /\
+  map g_result (fst (session cfg [] [nf 0 BMissing; nf 0 BMissing]))%nat = [Err Unavail; Err Unavail] /\
+  map g_result (fst (session cfg [] [mkOp 0 BEmpty segs 100 [Status 404] [Status 503; Status 503]; nf 0 BEmpty]))%nat
+    = [Err Glitch; Err Unavail] /\
+  map g_result (fst (session cfg [] [nf 0 BFull; nf 1 BEmpty; nf 0 BEmpty]))%nat = [Err NotFound; Err Unavail; Err NotFound] /\
+  snd (session cfg [] [nf 0 BFull; nf 1 BEmpty; nf 0 BEmpty])%nat = [0%nat] /\
+  map g_result (fst (session cfg [] [mkOp 0 BFull segs 100 [Trunc 9] []; mkOp 0 BFull segs 100 [HFault HReset] [];
+                                      mkOp 0 BFull segs 100 [Stall 0; Reset 3] []]))%nat = [Ok 224%nat; Ok 224%nat; Err Glitch].
+Proof. vm_compute. repeat split; reflexivity. Qed.
+Print Assumptions C09_session_examples.
